@@ -610,14 +610,31 @@ func sortedMapKeys(m reflect.Value) []reflect.Value {
 		ni, iok := numeric(keys[i])
 		nj, jok := numeric(keys[j])
 		if iok && jok {
+			if ni == nj {
+				// 1, int64(1) and 1.0 are distinct keys: keep them in a fixed order too
+				return keyTypeName(keys[i]) < keyTypeName(keys[j])
+			}
 			return ni < nj
 		}
 		if iok != jok {
 			return iok // numbers before everything else
 		}
-		return text(keys[i]) < text(keys[j])
+		ti, tj := text(keys[i]), text(keys[j])
+		if ti == tj {
+			return keyTypeName(keys[i]) < keyTypeName(keys[j])
+		}
+		return ti < tj
 	})
 	return keys
+}
+
+// keyTypeName names the dynamic type of a map key; it orders keys of different types
+// that are otherwise indistinguishable
+func keyTypeName(v reflect.Value) string {
+	if v.Kind() == reflect.Interface && !v.IsNil() {
+		v = v.Elem()
+	}
+	return v.Type().String()
 }
 
 // BlockNode represents a block definition
